@@ -255,6 +255,12 @@ impl StreamsState {
         self.connection_blocked.clear();
     }
 
+    /// Whether the application has changed receive limits since the connection was created, so
+    /// that they may differ from what the transport parameters announced
+    pub(crate) fn flow_control_adjusted(&self) -> bool {
+        self.flow_control_adjusted
+    }
+
     /// Whether no more streams can be opened, per direction
     pub(crate) fn at_stream_limit(&self) -> [bool; 2] {
         [Dir::Bi, Dir::Uni].map(|dir| self.next[dir as usize] >= self.max[dir as usize])
@@ -915,6 +921,7 @@ impl StreamsState {
     /// Set the receive_window and returns whether the receive_window has been
     /// expanded or shrunk: true if expanded, false if shrunk.
     pub(crate) fn set_receive_window(&mut self, receive_window: VarInt) -> bool {
+        self.flow_control_adjusted = true;
         let receive_window = receive_window.into();
         let mut expanded = false;
         if receive_window > self.receive_window {
